@@ -8,8 +8,9 @@ import time
 from . import tlc as _tlc
 
 VERIF = _tlc.VERIF
-EVIDENCE = os.path.join(VERIF, "evidence")
-REPLAYS = os.path.join(VERIF, "replays")
+# (the seeding tool points these elsewhere so that runs against mutated copies never touch the committed evidence)
+EVIDENCE = os.environ.get("VERIF_EVIDENCE_DIR") or os.path.join(VERIF, "evidence")
+REPLAYS = os.environ.get("VERIF_REPLAY_DIR") or os.path.join(VERIF, "replays")
 FINDINGS = os.path.join(VERIF, "known_findings.json")
 REPO = os.environ.get("VERIF_REPO", "/repo")
 
